@@ -59,7 +59,19 @@ static int walk(qlisttbl_t *t, const char *name, int newmem, int *on, int *ov, c
     if (nb) sm_scribble(nb, strlen(name) + 1);
     return c;
 }
+/* refused calls: invalid arguments must be rejected with EINVAL; they run BEFORE the observation so that any effect they had is seen by it */
+static void refused_calls(qlisttbl_t *t, const char *after) {
+    for (int q = 0; q < 3; q++) {
+        errno = 0; if (t->putstr(t, NAMES[q], NULL) || errno != EINVAL) vc_viol("multimap:einval", "after %s: putstr('%s', NULL) not refused with EINVAL", after, NAMES[q]);
+        errno = 0; if (t->put(t, NAMES[q], "x", 0) || errno != EINVAL) vc_viol("multimap:einval", "after %s: put('%s', size 0) not refused with EINVAL", after, NAMES[q]);
+    }
+    errno = 0; if (t->put(t, NULL, "x", 2) || errno != EINVAL) vc_viol("multimap:einval", "after %s: put(NULL name) not refused with EINVAL", after);
+    errno = 0; if (t->get(t, NULL, NULL, false) || errno != EINVAL) vc_viol("multimap:einval", "after %s: get(NULL name) not refused with EINVAL", after);
+    if (t->remove(t, NULL) != 0) vc_viol("multimap:einval", "after %s: remove(NULL) removed something", after);
+    if (t->removeobj(t, NULL)) vc_viol("multimap:einval", "after %s: removeobj(NULL) returned true", after);
+}
 static void observe(qlisttbl_t *t, const model_t *m, const char *after) {
+    refused_calls(t, after);
     if ((int)t->size(t) != m->n) vc_viol("multimap:size", "after %s: size() = %zu, model has %d entries", after, t->size(t), m->n);
     int gn[40], gv[40];
     for (int nm = 0; nm < 2; nm++) {    /* unfiltered walk = all entries in lookup order */
@@ -182,7 +194,9 @@ static int transition(const uint16_t *hist, int d, int opi, char *ckey, int verb
     snprintf(after, sizeof after, "op %d", opi);
     for (int q = 0; q < 3; q++) { size_t sz = 0; void *d = t->get(t, NAMES[q], &sz, true); if (d) sm_hold(d, d, sz, "qlisttbl_get(newmem) taken before the operation"); }
     if (apply(t, &m, &OPS[opi], 1, after) == 1) { sm_release_held(); t->free(t); return 1; }
+    refused_calls(t, after);
     canon(t, ckey, after);
+    { char want[128], *w = want; for (int i = 0; i < m.n; i++) w += sprintf(w, "%d:%d ", m.nm[i], m.vl[i]); *w = 0; if (strcmp(want, ckey)) vc_viol("multimap:content", "after %s: table holds [%s], expected [%s]", after, ckey, want); }
     observe(t, &m, after);
     saveload(t, &m, OPT, after);
     if (TOP) saveload(t, &m, OPT & ~4, after);   /* loading into an appending table keeps the saved order */
@@ -244,9 +258,40 @@ static void run_values(void) {
     vc_stat_add("evaluations", n_values); vc_stat_add("transitions", n_values); vc_stat_add("states", cnt);
     vc_sample("save/load of k1=<all strings of length 0..3 over {a,SP,TAB,LF,CR,%%,+,=,#,&,\",\\,01,7f,80,ff}>, alone and next to k2");
 }
+/* ---- internal growth thresholds: getmulti over 0..45 entries of one name (its array grows at 10, 20, 40) ---- */
+static void multi_case(int n, int other) {
+    char key[64]; snprintf(key, sizeof key, "listtbl-multi:%d:%d:%d", OPT, n, other);
+    if (!vc_case("qlisttbl_getmulti", key)) return;
+    n_values++;
+    long live0 = va_live;
+    qlisttbl_t *t = qlisttbl(LIBOPT & ~QLISTTBL_UNIQUE);
+    char val[16];
+    for (int i = 0; i < n; i++) { snprintf(val, sizeof val, "v%03d", i); t->putstr(t, "dup", val); if (other && (i % other) == 0) t->putstr(t, "other", "o"); }
+    for (int nm = 0; nm < 2; nm++) {
+        size_t cnt = 9999; errno = 0; qlisttbl_data_t *d = t->getmulti(t, CASEI ? "DUP" : "dup", nm, &cnt);
+        if ((int)cnt != n) vc_viol("multimap:getmulti-count", "%s: getmulti found %zu of %d entries", key, cnt, n);
+        else if (n == 0) { if (d) vc_viol("multimap:getmulti-count", "%s: array returned for no match", key); }
+        else if (!d) vc_viol("multimap:getmulti-null", "%s: NULL for %d matches", key, n);
+        else {
+            for (int i = 0; i < n; i++) { int idx = (TOP ? n - 1 - i : i); if (!FWD) idx = n - 1 - idx; snprintf(val, sizeof val, "v%03d", idx); if (d[i].size != 5 || memcmp(d[i].data, val, 5) || d[i].type != (nm ? 2 : 1)) { vc_viol("multimap:getmulti-order", "%s: element %d is '%.5s', expected %s", key, i, (char *)d[i].data, val); break; } }
+            if (d[n].type != 0) vc_viol("multimap:getmulti-terminator", "%s: array of %d elements not terminated", key, n);
+        }
+        if (d) t->freemulti(d);
+    }
+    t->free(t);
+    sm_leakcheck(live0, "getmulti");
+    sm_asan("qlisttbl_getmulti");
+    vc_case_end();
+}
+static void run_multi(void) {
+    for (int n = 0; n <= 45; n++) for (int other = 0; other <= 3; other += 3) multi_case(n, other);
+    vc_stat_add("evaluations", n_values); vc_stat_add("transitions", n_values); vc_stat_add("states", 46);
+    vc_sample("getmulti over 0..45 entries named dup (array growth at 10, 20, 40), both newmem modes, order per options");
+}
 static int worker(int argc, char **argv) {
     if (vc_replay_key) {
         int off;
+        if (!strncmp(vc_replay_key, "listtbl-multi:", 14)) { int n, o; sscanf(vc_replay_key + 14, "%d:%d:%d", &OPT, &n, &o); NV = 2; L = 3; setup(); multi_case(n, o); return 0; }
         if (!strncmp(vc_replay_key, "listtbl-values:", 15)) {
             char h1[32], h2[32]; sscanf(vc_replay_key + 15, "%d:%31[^:]:%31s", &OPT, h1, h2); NV = 2; L = 3; setup();
             unsigned char a[16], b[16]; size_t na, nb = 0;
@@ -259,6 +304,7 @@ static int worker(int argc, char **argv) {
     }
     if (argc < 3) return 1;
     if (!strcmp(argv[1], "values")) { OPT = atoi(argv[2]); L = 3; NV = 2; setup(); run_values(); return 0; }
+    if (!strcmp(argv[1], "multi")) { OPT = atoi(argv[2]); L = 3; NV = 2; setup(); run_multi(); return 0; }
     OPT = atoi(argv[1]); L = atoi(argv[2]); NV = atoi(argv[3]);
     setup();
     sm_search(&SP, 0);
